@@ -363,8 +363,21 @@ def check_e2e(ctx: Ctx, res: Result):
                     Snapshot.take(os.path.join(root, "s"), {"m": StateDict(dict(state))})
                     wpeak = led["peak"]
                     tgt = {"m": StateDict({k: torch.zeros_like(v) for k, v in state.items()})}
-                    Snapshot(os.path.join(root, "s")).restore(tgt)
+                    snap_obj = Snapshot(os.path.join(root, "s"))
+                    snap_obj.restore(tgt)
                     rpeak = led["read_peak"]
+                    # the SAME Snapshot object again under a different (smaller) budget: the budget is a property of the
+                    # call, not of the object
+                    B2 = rng.choice([b for b in (8, 16, 24, 40) if b < B] or [8])
+                    os.environ["TORCHSNAPSHOT_PER_RANK_MEMORY_BUDGET_BYTES"] = str(B2)
+                    led["read_alive"] = 0; led["read_n"] = 0; led["read_peak"] = (0, 0)
+                    tgt2 = {"m": StateDict({k: torch.zeros_like(v) for k, v in state.items()})}
+                    snap_obj.restore(tgt2)
+                    rpeak2 = led["read_peak"]
+                    if rpeak2[0] > B2:
+                        res.failures.append(Failure("C10:e2e:second-restore-ignores-the-current-budget",
+                                                    f"second restore() of one Snapshot object with budget {B2} (first: {B}): {rpeak2[0]} bytes read and not yet consumed at once ({rpeak2[1]} buffers; tensor bytes {[4 * n for n in sizes]})",
+                                                    {"e2e": True, "sizes_elems": sizes, "B": B, "B2": B2}))
                 replay = {"e2e": True, "sizes_elems": sizes, "B": B}
                 res.case({"e2e": True, "bytes": [4 * n for n in sizes], "B": B, "peak_save": wpeak, "peak_load": rpeak}, nontrivial=sum(4 * n for n in sizes) > B)
                 res.count("e2e.budget", B)
